@@ -16,6 +16,7 @@ def gen(rng, depth, allow=None, clock=None, nonconforming_p=0.0, rogue_p=0.0, ma
         "program": prog,
         "sub_t": sub_t if sub_t is not None else rng.choice([200, 200, 205]),
         "horizon": 2500,
+        "as_observer": rng.random() < 0.3,  # the subscriber is handed to subscribe() as an observer object (else: three callbacks)
     }
 
 
@@ -26,6 +27,7 @@ class Run:
         self.sc = sc
         w = self.w = vt.World(sc.get("clock", "test"))
         w.fault_cls = vt.FAULT_CLASSES[sc.get("exc")]
+        w.as_observer = bool(sc.get("as_observer"))
         vt.make_sources(w, sc["sources"])
         w.set_faults(sc.get("faults"))
         self.build_error = None
